@@ -6,7 +6,7 @@ from autobean_refactor.models import base as mbase
 CASES = {'quick': 4000, 'thorough': 60000}
 SMALL_BLOCKS = 4      # runner: every 4th case keeps its stores in 2..10-token blocks
 GATES = {
-    'quick': {'multi_comment_handovers': 150, 'assigned_list_claims': 40, 'cases_in_small_blocks': 50, 'evaluations': 15000, 'steps_changing_store': 7000, 'op_kinds_seen': 70, 'popped_nodes_checked': 100,
+    'quick': {'multi_comment_handovers': 150, 'assigned_list_claims': 40, 'new_neighbour_claims': 60, 'cases_in_small_blocks': 50, 'evaluations': 15000, 'steps_changing_store': 7000, 'op_kinds_seen': 70, 'popped_nodes_checked': 100,
               'edits_through_inserted_nodes': 200, 'claim_steps': 800, 'token_steps': 800},
     'thorough': {'evaluations': 400000, 'op_kinds_seen': 80, 'popped_nodes_checked': 5000},
 }
@@ -63,6 +63,10 @@ def run_case(col, r, idx):
             pp = ops.multi_comment_ops(f, r)       # several separate comment tokens in one gap, handed from list to list
             if pp:
                 col.count('multi_comment_handovers')
+        if not pp and idx % 5 == 4:
+            pp = ops.new_neighbour_claims_ops(f, r)     # a released comment claimed by a model that was not there when it was first claimed
+            if pp:
+                col.count('new_neighbour_claims')
         pp.reverse()
         for s in range(nsteps + len(pp)):
             if pp:
@@ -82,6 +86,11 @@ def run_case(col, r, idx):
             op = (mg.claim_op(f) if layout and r.random() < 0.6 else mg.next_op(f, kinds=('token', 'spacing', 'claim', 'arith'))) if r.random() < (0.7 if layout else 0.3) else g.next_op(f)
             if op is None:
                 continue
+            if getattr(op, 'unreadable', None):
+                col.ev()
+                col.violation('document-unreadable-after-accepted-edits', f'after {log[-1] if log else "the parse"}: {op.unreadable}',
+                              {'text': text, 'lf': lf, 'acl': acl, 'log': log})
+                return
             pre_ids = walker.ids_texts(f.token_store)
             slot_text = {}
             if op.kind.endswith(':pop') or op.kind == 'meta:pop':
